@@ -587,7 +587,10 @@ def run(tier):
     chk.cov["fault_injection"] = stats
     chk.cov["corpus"] = CORPUS
     chk.cov["faults"] = ["callback raising at every key of the traversal (injected)", "unsupported operator (custom node type)",
-                         "ill-typed substitution", "ill-typed construction", "parser: " + ", ".join(l for l, _ in BAD_SCRIPTS)]
+                         "ill-typed substitution",
+                         "rejected constructions (31 entries: pysmt type errors, typing rules raising AttributeError/AssertionError, create_node with a node type unknown to the type checker), each attempted three times",
+                         "parser: " + ", ".join(l for l, _ in BAD_SCRIPTS),
+                         "every failing call is attempted a second time on the same environment and must fail as the first time and as a single attempt on a fresh environment"]
     if meta:
         chk.sample(meta[0])
         chk.sample(meta[-1])
